@@ -38,6 +38,9 @@ EXPLANATION = (
     "R9 CircuitTemplate.apply: the slot indices an edge group hands over as source_idx/target_idx for the vectorized edge IR it obtained "
     "through the (shared, length-accumulating) node cache are [IR.length - n, IR.length), read after the group's own n extensions - "
     "not a range that starts at 0 or ignores IR.length.  "
+    "R10 NetworkGraph._generate_edge_equation / _add_edge_buffer / _add_matrix_delay: every variable record registered under a key that "
+    "varies with an enclosing loop owns its 'value' object (an immutable scalar, created inside that loop, or the loop's own element) - "
+    "never one mutable allocation made outside the loop and stored under several names (reaching definitions on the inlined views).  "
     "NOT decided: the choice of the sparseness threshold, equality of trajectories, user edge dictionaries that already contain "
     "source_idx/target_idx."
 )
